@@ -79,9 +79,53 @@ theorem take_of_lt {s : List Int} {k j : Nat} (hkj : k < j) (hk : k < s.length) 
   calc s.take j = (s.take j).take (k + 1) ++ (s.take j).drop (k + 1) := (List.take_append_drop _ _).symm
     _ = s.take k ++ [s[k]] ++ (s.take j).drop (k + 1) := by rw [h1, h2]
 
-/-- **Maximal munch at table level.** For a table validated against the rules, the number of
-runes the table consumes from state 0 on `s` is the length of the LONGEST viable prefix of `s`, and
-the state reached carries the action pairs of the earliest rule matching that prefix. -/
+/-- The table computes a specification given by a viability predicate `V` and a labelling `L`
+(`viable`/`label` for greedy modes, `viableNG`/`labelNG` for modes with non-greedy rules). -/
+structure TableSpec (tbl : Mode) (V : List Int → Prop) (L : List Int → List Pair) : Prop where
+  wf : wfTable tbl = true
+  dead : ∀ s, tableRun tbl s = none ↔ ¬ V s
+  lab : ∀ s ps, tableRun tbl s = some ps → ps = L s
+
+theorem tableSpec_of_closed {rules : List Rule} {tbl : Mode} {R : List Cfg}
+    (hC : Closed rules tbl R) : TableSpec tbl (viable rules) (label rules) := by
+  refine ⟨hC.wf, ?_, ?_⟩
+  · intro s
+    rw [closed_sound hC s]
+    unfold specRun
+    by_cases hv : viable rules s <;> simp [hv]
+  · intro s ps h
+    rw [closed_sound hC s] at h
+    unfold specRun at h
+    by_cases hv : viable rules s
+    · simp only [hv, ↓reduceIte, Option.some.injEq] at h; exact h.symm
+    · simp [hv] at h
+
+/-- **Maximal munch at table level.** For a table that computes the specification `(V, L)`, the
+number of runes the table consumes from state 0 on `s` is the length of the LONGEST viable prefix
+of `s`, and the state reached carries the label of that prefix. -/
+theorem munch_table_gen {tbl : Mode} {V : List Int → Prop} {L : List Int → List Pair}
+    (hS : TableSpec tbl V L) (s : List Int) :
+    V (s.take (scanLen tbl 0 s)) ∧
+    (∀ j, scanLen tbl 0 s < j → j ≤ s.length → ¬ V (s.take j)) ∧
+    ∃ q', tableRunFrom tbl 0 (s.take (scanLen tbl 0 s)) = some q' ∧
+      rowPairs tbl q' = L (s.take (scanLen tbl 0 s)) := by
+  obtain ⟨q', hrun, hstop⟩ := scan_spec tbl s 0
+  have hk : tableRun tbl (s.take (scanLen tbl 0 s)) = some (rowPairs tbl q') := by
+    simp only [tableRun, hrun, Option.map_some]
+  have hv : V (s.take (scanLen tbl 0 s)) := by
+    by_cases hv : V (s.take (scanLen tbl 0 s))
+    · exact hv
+    · rw [(hS.dead _).mpr hv] at hk; cases hk
+  refine ⟨hv, ?_, q', hrun, hS.lab _ _ hk⟩
+  intro j hj hjl
+  have hlt : scanLen tbl 0 s < s.length := by omega
+  have hnone : tableRunFrom tbl 0 (s.take (scanLen tbl 0 s) ++ [s[scanLen tbl 0 s]]) = none := by
+    rw [tableRunFrom_append, hrun]
+    simp only [Option.bind_some, tableRunFrom, hstop _ (List.getElem?_eq_getElem hlt)]
+  apply (hS.dead _).mp
+  rw [take_of_lt hj hlt]
+  simp only [tableRun, tableRunFrom_none_append hnone, Option.map_none]
+
 theorem munch_table {rules : List Rule} {tbl : Mode} (hC : ∃ R, Closed rules tbl R)
     (s : List Int) :
     viable rules (s.take (scanLen tbl 0 s)) ∧
@@ -89,27 +133,7 @@ theorem munch_table {rules : List Rule} {tbl : Mode} (hC : ∃ R, Closed rules t
     ∃ q', tableRunFrom tbl 0 (s.take (scanLen tbl 0 s)) = some q' ∧
       rowPairs tbl q' = label rules (s.take (scanLen tbl 0 s)) := by
   obtain ⟨R, hC⟩ := hC
-  have hsound := closed_sound hC
-  obtain ⟨q', hrun, hstop⟩ := scan_spec tbl s 0
-  have hk := hsound (s.take (scanLen tbl 0 s))
-  simp only [tableRun, hrun, Option.map_some, specRun] at hk
-  have hv : viable rules (s.take (scanLen tbl 0 s)) := by
-    by_cases hv : viable rules (s.take (scanLen tbl 0 s))
-    · exact hv
-    · simp [hv] at hk
-  refine ⟨hv, ?_, q', hrun, ?_⟩
-  · intro j hj hjl hvj
-    have hlt : scanLen tbl 0 s < s.length := by omega
-    have hnone : tableRunFrom tbl 0 (s.take (scanLen tbl 0 s) ++ [s[scanLen tbl 0 s]]) = none := by
-      rw [tableRunFrom_append, hrun]
-      simp only [Option.bind_some, tableRunFrom, hstop _ (List.getElem?_eq_getElem hlt)]
-    have := hsound (s.take j)
-    rw [take_of_lt hj hlt] at this
-    simp only [tableRun, tableRunFrom_none_append hnone, Option.map_none, specRun] at this
-    rw [← take_of_lt hj hlt] at this
-    simp [hvj] at this
-  · simp only [hv, ↓reduceIte, Option.some.injEq] at hk
-    exact hk
+  exact munch_table_gen (tableSpec_of_closed hC) s
 
 /-! ### Driver level -/
 
@@ -273,12 +297,92 @@ theorem tableRunFrom_ne_zero {tbl : Mode} (hwf : wfTable tbl = true) (hsc : star
       | cons c' u' =>
         exact ih q1 q' (by simp) (tableStep_spec hwf hq hstep).1 hrun
 
-/-- **Maximal munch at driver level.** `m` is the current mode, validated against `rules`; the
-state machine is in state 0 (between tokens). Let `s` be the remaining runes, `k = scanLen m 0 s`
-and `p = s.take k`. Then `p` is the longest viable prefix of `s`, and `ReadToken` consumes exactly
-`p` and then does what `tokBody` does with the result of executing the action pairs of the
-earliest rule that matches `p` (`label rules p`; `[]` when no rule matches `p`). The state `q'`
-reached is `≠ 0` when `p ≠ []` and the table is `startClean`. -/
+/-- **Maximal munch at driver level.** `m` is the current mode, computing the specification
+`(V, L)` (`TableSpec`); the state machine is in state 0 (between tokens). Let `s` be the remaining
+runes, `k = scanLen m 0 s` and `p = s.take k`. Then `p` is the longest viable prefix of `s`, and
+`ReadToken` consumes exactly `p` and then does what `tokBody` does with the result of executing the
+action pairs `L p` (those of the earliest rule that matches `p`; `[]` when no rule matches `p`). The
+state `q'` reached is `≠ 0` when `p ≠ []` and the table is `startClean`. -/
+theorem munch_driver_gen (modes : Array Mode) (inp : Input) (m : Mode) {V : List Int → Prop}
+    {L : List Int → List Pair} (l : Lx) (hS : TableSpec m V L)
+    (hmode : modes[l.sm.mode.getD 0]? = some m)
+    (hstate : l.sm.state = 0) (start : Option Nat) (n : Nat) :
+    V ((l.rest inp).take (scanLen m 0 (l.rest inp))) ∧
+    (∀ j, scanLen m 0 (l.rest inp) < j → j ≤ (l.rest inp).length →
+      ¬ V ((l.rest inp).take j)) ∧
+    ∃ q', tableRunFrom m 0 ((l.rest inp).take (scanLen m 0 (l.rest inp))) = some q' ∧
+      (startClean m = true → (l.rest inp).take (scanLen m 0 (l.rest inp)) ≠ [] → q' ≠ 0) ∧
+      readToken modes inp (scanLen m 0 (l.rest inp) + (n + 1)) start l =
+        tokBody modes inp n (start.getD l.offset) (l.advance inp (scanLen m 0 (l.rest inp)))
+          (runPairs modes ((l.advance inp (scanLen m 0 (l.rest inp))).char inp)
+            (L ((l.rest inp).take (scanLen m 0 (l.rest inp))))
+            { l.sm with mode := some (l.sm.mode.getD 0), state := (q' : Int) }) := by
+  obtain ⟨hv, hlong, q1, hrun1, hlab⟩ := munch_table_gen hS (l.rest inp)
+  have hwf := hS.wf
+  obtain ⟨q', hrun, _, hread⟩ := readToken_scan modes inp m hwf (l.rest inp) 0 l start n rfl hmode
+    (by simpa using hstate) (wfTable_nStates hwf)
+  have : q1 = q' := by rw [hrun1] at hrun; exact Option.some.inj hrun
+  subst this
+  refine ⟨hv, hlong, q1, hrun1, ?_, ?_⟩
+  · intro hsc hne
+    exact tableRunFrom_ne_zero hwf hsc _ 0 q1 hne (wfTable_nStates hwf) hrun1
+  · rw [hread, hlab]
+
+/-- Plain token rule wins (`label = [(3, t)]`, i.e. accept terminal `t`, no mode actions): the call
+returns the token `t` whose text is exactly the longest viable prefix. -/
+theorem munch_token_gen (modes : Array Mode) (inp : Input) (m : Mode) {V : List Int → Prop}
+    {L : List Int → List Pair} (l : Lx) (hS : TableSpec m V L)
+    (hmode : modes[l.sm.mode.getD 0]? = some m)
+    (hstate : l.sm.state = 0) (start : Option Nat) (n : Nat) (t : Int)
+    (hlab : L ((l.rest inp).take (scanLen m 0 (l.rest inp))) = [(3, t)]) :
+    readToken modes inp (scanLen m 0 (l.rest inp) + (n + 1)) start l =
+      some (some (.tok t (start.getD l.offset) (l.advance inp (scanLen m 0 (l.rest inp))).offset),
+        { l.advance inp (scanLen m 0 (l.rest inp)) with
+          sm := { l.sm with token := t, mode := some (l.sm.mode.getD 0), state := 0 } }) := by
+  obtain ⟨_, _, q', _, _, hread⟩ := munch_driver_gen modes inp m l hS hmode hstate start n
+  rw [hread, hlab]
+  simp [runPairs, tokBody]
+
+/-- No rule matches the longest viable prefix `p`: the call returns an ERROR token starting at the
+start offset and carrying the first rune that could not be consumed – provided that rune is not
+end-of-input, or `p` is non-empty and the table is `startClean` (otherwise `PushRune` reports
+`EOF`, see `munch_eof`). -/
+theorem munch_error_gen (modes : Array Mode) (inp : Input) (m : Mode) {V : List Int → Prop}
+    {L : List Int → List Pair} (l : Lx) (hS : TableSpec m V L)
+    (hmode : modes[l.sm.mode.getD 0]? = some m)
+    (hstate : l.sm.state = 0) (start : Option Nat) (n : Nat)
+    (hlab : L ((l.rest inp).take (scanLen m 0 (l.rest inp))) = [])
+    (hne : (l.advance inp (scanLen m 0 (l.rest inp))).char inp ≠ -1 ∨
+      (startClean m = true ∧ (l.rest inp).take (scanLen m 0 (l.rest inp)) ≠ [])) :
+    ∃ l', readToken modes inp (scanLen m 0 (l.rest inp) + (n + 1)) start l =
+      some (some (.err (start.getD l.offset)
+        ((l.advance inp (scanLen m 0 (l.rest inp))).char inp)), l') := by
+  obtain ⟨_, _, q', _, hq0, hread⟩ := munch_driver_gen modes inp m l hS hmode hstate start n
+  rw [hread, hlab]
+  have hcond : ¬ ((q' : Int) = 0 ∧ (l.advance inp (scanLen m 0 (l.rest inp))).char inp = -1) := by
+    rintro ⟨h0, hc⟩
+    rcases hne with h | ⟨hsc, hp⟩
+    · exact h hc
+    · exact hq0 hsc hp (by omega)
+  simp only [runPairs, hcond, ↓reduceIte, tokBody]
+  exact ⟨_, rfl⟩
+
+/-- At end of input, between tokens, with a `startClean` table: EOF. -/
+theorem munch_eof_gen (modes : Array Mode) (inp : Input) (m : Mode) {V : List Int → Prop}
+    {L : List Int → List Pair} (l : Lx) (hS : TableSpec m V L)
+    (hmode : modes[l.sm.mode.getD 0]? = some m)
+    (hstate : l.sm.state = 0) (start : Option Nat) (n : Nat) (hend : l.rest inp = [])
+    (hsc : startClean m = true) :
+    readToken modes inp (n + 1) start l =
+      some (some (.eof (start.getD l.offset)),
+        { l with sm := { l.sm with mode := some (l.sm.mode.getD 0) } }) := by
+  have hwf := hS.wf
+  rw [readToken_eq_tokBody, pushRune_step modes l.sm m 0 _ hwf hmode (by simpa using hstate)
+    (wfTable_nStates hwf), rest_nil hend, tableStep_outside hwf (wfTable_nStates hwf) (.inl (by omega))]
+  simp only [(startClean_spec hwf hsc).1, runPairs, hstate, and_self, ↓reduceIte, tokBody]
+
+/-! ### Greedy modes -/
+
 theorem munch_driver (modes : Array Mode) (inp : Input) (m : Mode) (rules : List Rule) (l : Lx)
     (hC : ∃ R, Closed rules m R) (hmode : modes[l.sm.mode.getD 0]? = some m)
     (hstate : l.sm.state = 0) (start : Option Nat) (n : Nat) :
@@ -292,20 +396,9 @@ theorem munch_driver (modes : Array Mode) (inp : Input) (m : Mode) (rules : List
           (runPairs modes ((l.advance inp (scanLen m 0 (l.rest inp))).char inp)
             (label rules ((l.rest inp).take (scanLen m 0 (l.rest inp))))
             { l.sm with mode := some (l.sm.mode.getD 0), state := (q' : Int) }) := by
-  obtain ⟨hv, hlong, q1, hrun1, hlab⟩ := munch_table hC (l.rest inp)
-  obtain ⟨R, hCl⟩ := hC
-  have hwf := hCl.wf
-  obtain ⟨q', hrun, _, hread⟩ := readToken_scan modes inp m hwf (l.rest inp) 0 l start n rfl hmode
-    (by simpa using hstate) (wfTable_nStates hwf)
-  have : q1 = q' := by rw [hrun1] at hrun; exact Option.some.inj hrun
-  subst this
-  refine ⟨hv, hlong, q1, hrun1, ?_, ?_⟩
-  · intro hsc hne
-    exact tableRunFrom_ne_zero hwf hsc _ 0 q1 hne (wfTable_nStates hwf) hrun1
-  · rw [hread, hlab]
+  obtain ⟨R, hC⟩ := hC
+  exact munch_driver_gen modes inp m l (tableSpec_of_closed hC) hmode hstate start n
 
-/-- Plain token rule wins (`label = [(3, t)]`, i.e. accept terminal `t`, no mode actions): the call
-returns the token `t` whose text is exactly the longest viable prefix. -/
 theorem munch_token (modes : Array Mode) (inp : Input) (m : Mode) (rules : List Rule) (l : Lx)
     (hC : ∃ R, Closed rules m R) (hmode : modes[l.sm.mode.getD 0]? = some m)
     (hstate : l.sm.state = 0) (start : Option Nat) (n : Nat) (t : Int)
@@ -314,14 +407,9 @@ theorem munch_token (modes : Array Mode) (inp : Input) (m : Mode) (rules : List 
       some (some (.tok t (start.getD l.offset) (l.advance inp (scanLen m 0 (l.rest inp))).offset),
         { l.advance inp (scanLen m 0 (l.rest inp)) with
           sm := { l.sm with token := t, mode := some (l.sm.mode.getD 0), state := 0 } }) := by
-  obtain ⟨_, _, q', _, _, hread⟩ := munch_driver modes inp m rules l hC hmode hstate start n
-  rw [hread, hlab]
-  simp [runPairs, tokBody]
+  obtain ⟨R, hC⟩ := hC
+  exact munch_token_gen modes inp m l (tableSpec_of_closed hC) hmode hstate start n t hlab
 
-/-- No rule matches the longest viable prefix `p`: the call returns an ERROR token starting at the
-start offset and carrying the first rune that could not be consumed – provided that rune is not
-end-of-input, or `p` is non-empty and the table is `startClean` (otherwise `PushRune` reports
-`EOF`, see `munch_eof`). -/
 theorem munch_error (modes : Array Mode) (inp : Input) (m : Mode) (rules : List Rule) (l : Lx)
     (hC : ∃ R, Closed rules m R) (hmode : modes[l.sm.mode.getD 0]? = some m)
     (hstate : l.sm.state = 0) (start : Option Nat) (n : Nat)
@@ -331,17 +419,9 @@ theorem munch_error (modes : Array Mode) (inp : Input) (m : Mode) (rules : List 
     ∃ l', readToken modes inp (scanLen m 0 (l.rest inp) + (n + 1)) start l =
       some (some (.err (start.getD l.offset)
         ((l.advance inp (scanLen m 0 (l.rest inp))).char inp)), l') := by
-  obtain ⟨_, _, q', _, hq0, hread⟩ := munch_driver modes inp m rules l hC hmode hstate start n
-  rw [hread, hlab]
-  have hcond : ¬ ((q' : Int) = 0 ∧ (l.advance inp (scanLen m 0 (l.rest inp))).char inp = -1) := by
-    rintro ⟨h0, hc⟩
-    rcases hne with h | ⟨hsc, hp⟩
-    · exact h hc
-    · exact hq0 hsc hp (by omega)
-  simp only [runPairs, hcond, ↓reduceIte, tokBody]
-  exact ⟨_, rfl⟩
+  obtain ⟨R, hC⟩ := hC
+  exact munch_error_gen modes inp m l (tableSpec_of_closed hC) hmode hstate start n hlab hne
 
-/-- At end of input, between tokens, with a `startClean` table: EOF. -/
 theorem munch_eof (modes : Array Mode) (inp : Input) (m : Mode) (rules : List Rule) (l : Lx)
     (hC : ∃ R, Closed rules m R) (hmode : modes[l.sm.mode.getD 0]? = some m)
     (hstate : l.sm.state = 0) (start : Option Nat) (n : Nat) (hend : l.rest inp = [])
@@ -349,10 +429,7 @@ theorem munch_eof (modes : Array Mode) (inp : Input) (m : Mode) (rules : List Ru
     readToken modes inp (n + 1) start l =
       some (some (.eof (start.getD l.offset)),
         { l with sm := { l.sm with mode := some (l.sm.mode.getD 0) } }) := by
-  obtain ⟨R, hCl⟩ := hC
-  have hwf := hCl.wf
-  rw [readToken_eq_tokBody, pushRune_step modes l.sm m 0 _ hwf hmode (by simpa using hstate)
-    (wfTable_nStates hwf), rest_nil hend, tableStep_outside hwf (wfTable_nStates hwf) (.inl (by omega))]
-  simp only [(startClean_spec hwf hsc).1, runPairs, hstate, and_self, ↓reduceIte, tokBody]
+  obtain ⟨R, hC⟩ := hC
+  exact munch_eof_gen modes inp m l (tableSpec_of_closed hC) hmode hstate start n hend hsc
 
 end Lox.Lex
